@@ -321,6 +321,166 @@ def check_len_iter_agree(P, ctx):
     ctx.floor(rule, 4)
 
 
+def check_table_scan(P, ctx):
+    """Table iter_init / iter_last look for the first / last occupied slot: with no occupied slot in sight they must have
+    examined every index 0..nslots-1 (ascending resp. descending) before answering Terminal.  Decided by walking the function's
+    CFG with the analyser's evaluator for nslots = 1..5, answering `unoccupied` at every occupancy test and recording the index."""
+    rule = 'C11.slot-scan'
+    for m, asc in (('iter_init', True), ('iter_last', False)):
+        fn = P.fn(P.slot('Table', 'Iter', m))
+        g = P.cfg(fn)
+        ctx.fn(fn)
+        N = util.Norm(P, fn)
+        tests = []
+        for n in g.live():
+            if n['kind'] != 'cond':
+                continue
+            cs = [c for c in ir.calls(n['expr']) if ir.callee_name(c) == 'Table_Key_Hash']
+            if cs:
+                c = N.canon(n['expr'])
+                pol = None       # edge label that means "unoccupied"
+                if c[0] == 'bin' and c[1] in ('!=', '==') and ('int', 0) in (c[2], c[3]):
+                    pol = (c[1] == '==')
+                elif c[0] == 'call':
+                    pol = False
+                tests.append((n, cs[0], pol))
+        key = 'Table.%s' % m
+        if not tests or any(p is None for (_, _, p) in tests):
+            ctx.undecided(rule, key, site(fn), 'occupancy test (Table_Key_Hash(t, i) compared with 0) not found in the scan')
+            continue
+        bad = None
+        for nslots in (1, 2, 3, 4, 5):
+            env = {('arrow', ('param', 0), 'nslots'): nslots, ('arrow', ('param', 0), 'nitems'): 1}
+            seen = []
+            start = None
+            for _ in range(3 * nslots + 6):
+                why, node, env = util.walk_eval(g, N, env, start=start, stop=[t[0]['id'] for t in tests] if start is None else None)
+                if why == 'stop' or (why in ('noeval',) and any(node['id'] == t[0]['id'] for t in tests)):
+                    t = [t for t in tests if t[0]['id'] == node['id']][0]
+                    try:
+                        seen.append(loops.ev(N.canon(t[1][2][1]), env))
+                    except loops.NoEval as e:
+                        bad = 'slot index `%s` not evaluable (%s)' % (ir.fmt(t[1][2][1]), e)
+                        break
+                    start = [v for (v, l) in node['succ'] if l == t[2]][0]
+                    continue
+                break
+            if bad:
+                break
+            want = list(range(nslots)) if asc else list(range(nslots - 1, -1, -1))
+            if why not in ('ret', 'exit', 'end'):
+                bad = 'with %d slots, all unoccupied in the walk, the scan does not reach a return (%s at %s)' % (nslots, why, g.describe(node))
+                break
+            if seen != want:
+                bad = 'with %d slots the scan examines indices %s before giving up; every slot in %s order is %s' % (
+                    nslots, seen, 'ascending' if asc else 'descending', want)
+                break
+        ctx.check(bad is None, rule, key, site(fn),
+                  '%s examines every slot index, %s, before it answers Terminal (nslots = 1..5)' % (m, 'lowest first' if asc else 'highest first'),
+                  [bad] if bad else None)
+    ctx.floor(rule, 2)
+
+
+def check_cursor_scratch(P, ctx):
+    """The Int a Range owns (`value`) is its cursor: iter_next/iter_prev advance it and get() reuses it for its result.  What
+    iter_init, iter_last, len, get and mem of a Range — and of a Slice, which embeds a Range — answer must therefore not depend
+    on what that Int currently holds: they may store into it and hand it out, never read it."""
+    rule = 'C11.cursor-is-scratch'
+    n_fn = 0
+    for T in ('Range', 'Slice'):
+        for (C, m) in (('Iter', 'iter_init'), ('Iter', 'iter_last'), ('Len', 'len'), ('Get', 'get'), ('Get', 'mem')):
+            nm = P.slot(T, C, m, required=False)
+            if nm is None:
+                continue
+            fn = P.fn(nm)
+            ctx.fn(fn)
+            n_fn += 1
+            # locals that alias the cursor object
+            alias = set()
+            reads = []
+
+            def is_cursor(e):
+                e = ir.top_nocast(e)
+                if e[0] in ('arrow', 'dot') and e[2] == 'value':
+                    return True
+                return e[0] == 'local' and e[2] in alias
+            g = P.cfg(fn)
+            nodes = [n for n in g.live() if n['expr'] is not None]
+            for n in nodes:
+                e = n['expr']
+                if e[0] == 'assign' and e[1] == '=' and ir.top_nocast(e[2])[0] == 'local' and is_cursor(e[3]):
+                    alias.add(ir.top_nocast(e[2])[2])
+
+            def scan(e, n, lhs_store=False):
+                if not ir.is_expr(e):
+                    return
+                k = e[0]
+                if k == 'assign':
+                    t = ir.top_nocast(e[2])
+                    if t[0] in ('arrow', 'dot') and t[2] == 'val' and is_cursor(t[1]):
+                        if e[1] != '=':
+                            reads.append((n, 'read-modify-write `%s`' % ir.fmt(e)[:60]))
+                        scan(e[3], n)
+                        return
+                    if t[0] == 'local' and is_cursor(e[3]):
+                        return          # alias definition
+                    scan(e[3], n)
+                    for c in ir.children(t):
+                        scan(c, n)
+                    return
+                if k in ('arrow', 'dot') and e[2] == 'val' and is_cursor(e[1]):
+                    reads.append((n, 'reads `%s`' % ir.fmt(e)[:60]))
+                    return
+                if k == 'call':
+                    for a in e[2]:
+                        if is_cursor(a):
+                            reads.append((n, 'passes the cursor to %s(...)' % ir.callee_name(e)))
+                        else:
+                            scan(a, n)
+                    return
+                for c in ir.children(e):
+                    scan(c, n)
+            stores = []
+            for n in nodes:
+                for ev in util.expr_events(n['expr'], n):
+                    if ev['t'] == 'write' and ev['op'] == '=':
+                        t = ir.top_nocast(ev['lhs'])
+                        if t[0] in ('arrow', 'dot') and t[2] == 'val' and is_cursor(t[1]):
+                            stores.append(n['id'])
+            for n in nodes:
+                if n['kind'] == 'ret':
+                    if is_cursor(n['expr']):
+                        continue
+                scan(n['expr'], n)
+            # a read that follows this function's own store on every *feasible* path reads that store, not the cursor's history
+            # (feasible: a condition over fields this function never writes takes the same outcome each time it is evaluated)
+            if reads and stores:
+                N_ = util.Norm(P, fn)
+                readn = {n['id'] for (n, _) in reads}
+                exposed = set()
+                for path in g.paths(max_visits=2):
+                    facts, ok_path, stored = {}, True, False
+                    hit = []
+                    for (n, lab) in path:
+                        if n['id'] in readn and not stored:
+                            hit.append(n['id'])
+                        if n['id'] in stores:
+                            stored = True
+                        if n['kind'] == 'cond':
+                            c = N_.canon(n['expr'])
+                            if not util.mentions(c, lambda x: x[0] in ('arrow', 'dot') and x[2] == 'val') and not util.mentions(c, lambda x: x[0] == 'call'):
+                                if facts.setdefault(c, lab) != lab:
+                                    ok_path = False
+                                    break
+                    if ok_path:
+                        exposed.update(hit)
+                reads = [(n, w) for (n, w) in reads if n['id'] in exposed]
+            ctx.check(not reads, rule, '%s.%s' % (T, m), site(fn, reads[0][0]['line'] if reads else None),
+                      '%s of a %s does not depend on the current content of the Range cursor (which get() and the cursor functions overwrite)' % (m, T),
+                      ['%s at %s' % (w, g.describe(n)) for (n, w) in reads[:4]] if reads else None)
+    ctx.floor(rule, 8)
+
+
 def run(ctx, load):
     P = load(UNITS, 'default', [WITNESS])
     ctx.stats['units'] = set(UNITS) | {'witness/macros.c'}
@@ -333,6 +493,8 @@ def run(ctx, load):
     check_zip(P, ctx)
     check_foreach(P, ctx)
     check_len_iter_agree(P, ctx)
+    check_table_scan(P, ctx)
+    check_cursor_scratch(P, ctx)
     from .rules_c04 import check_list_links
     before = len(ctx.obs)
     check_list_links(P, ctx)
